@@ -9,8 +9,8 @@ EXTENDS Integers, Sequences, FiniteSets, TLC
 Continue(kind, t, T, mn, mx, conv, maxRule) ==
     CASE kind = "time"     -> t < T
       [] kind = "energy"   -> t < mx /\ (t < mn \/ ~conv[t + 1])
-      [] kind = "detector" -> LET cut == IF maxRule = "max_steps" THEN t < mx ELSE t < T
-                              IN  t < mn \/ (cut /\ ~conv[t + 1])
+      [] kind = "detector" -> IF maxRule = "max_steps" THEN t < mx /\ (t < mn \/ ~conv[t + 1])      \* hard cut-off wins
+                              ELSE t < mn \/ (t < T /\ ~conv[t + 1])                               \* pre-fix code
 Stops(kind, t, T, mn, mx, conv, maxRule) == t >= T \/ ~Continue(kind, t, T, mn, mx, conv, maxRule)
 Halt(kind, T, mn, mx, conv, maxRule) ==
     CHOOSE h \in 0..T : /\ Stops(kind, h, T, mn, mx, conv, maxRule)
